@@ -51,6 +51,7 @@ inductive Stmt
   | copy (s : Src)              -- copy(src_arr, out_arr, size)
   | zero                        -- out_arr[:] = 0
   | recurse
+  | lin (ua ub : Bool)          -- out.data[:] = [a * x1.data] [+] [b * x2.data]  (right-hand side first)
   deriving Repr
 
 /-! ### What `_blas_is_applicable` and `ravel` see of the arrays -/
@@ -151,6 +152,9 @@ def exec (guarded : Bool) (self : Args → K → K → Mem K → Option (Mem K))
   | .copy s, A, _, _, m => some (m.write A.out (m (s.buf A)))
   | .zero, A, _, _, m => some (m.write A.out (fun _ => 0))
   | .recurse, A, a, b, m => self { A with x2 := A.x1 } (a + b) 0 m
+  | .lin ua ub, A, a, b, m =>
+      some (m.write A.out (fun i => (if ua then a * m A.x1 i else 0) +
+                                    (if ub then b * m A.x2 i else 0)))
 
 /-- The primitive operations a statement executes, in order (the conditions do not depend
 on the memory): used by the driver to report which leaf of the dispatch ran. -/
@@ -163,6 +167,7 @@ def Stmt.trace (A : Args) (a b : K) : Stmt → List String
   | .copy _ => ["copy"]
   | .zero => ["zero"]
   | .recurse => ["recurse"]
+  | .lin ua ub => ["lin" ++ (if ua then "1" else "0") ++ (if ub then "1" else "0")]
 
 inductive Regime | small | fallback | blas
   deriving Repr, DecidableEq
@@ -186,6 +191,7 @@ structure Params where
   zeroGuard : Bool      -- `if a == 0 and b == 0: out.data[:] = 0; return` precedes the regimes
   blasTree : BTree      -- `_blas_is_applicable`
   prog : Stmt           -- the alias/scalar dispatch
+  progSmall : Stmt      -- the body of the small-size branch (direct NumPy expressions)
 
 /-- Whole `_lincomb_impl(a, x1, b, x2, out)`, re-entered as a whole by the recursive call
 (`none` = recursion depth exhausted).  In the BLAS regime all work is done on
@@ -197,7 +203,7 @@ def lincombImplF (P : Params) (size : Nat) (d : Desc) :
     if P.zeroGuard && decide (a = 0) && decide (b = 0) then some (m.write A.out (fun _ => 0))
     else
       match regime P.thrSmall P.thrMedium size (P.blasTree.eval d) with
-      | .small => some (direct A a b m)
+      | .small => exec false (lincombImplF P size d f) P.progSmall A a b m
       | .fallback => exec P.fbGuard (lincombImplF P size d f) P.prog A a b m
       | .blas =>
           match exec false (lincombImplF P size d f) P.prog A a b m with
